@@ -32,6 +32,92 @@ fn esc(s: &str) -> String {
     o
 }
 
+// ---- custom escape functions (Tera::set_escape_fn)
+const MK_OPEN: char = '\u{27E6}';
+const MK_CLOSE: char = '\u{27E7}';
+
+/// marks every call: the input wrapped in ⟦…⟧, nothing rewritten
+fn escape_marker(input: &str, out: &mut dyn std::io::Write) -> std::io::Result<()> {
+    write!(out, "{MK_OPEN}{input}{MK_CLOSE}")
+}
+/// a JS-string escaper (\\xNN style): rewrites backslash, slash, both quotes and newline — characters the
+/// HTML escaper leaves alone (except the quotes)
+fn escape_js(input: &str, out: &mut dyn std::io::Write) -> std::io::Result<()> {
+    out.write_all(esc_js(input).as_bytes())
+}
+fn escape_identity(input: &str, out: &mut dyn std::io::Write) -> std::io::Result<()> {
+    out.write_all(input.as_bytes())
+}
+fn esc_js(s: &str) -> String {
+    let mut o = String::new();
+    for c in s.chars() {
+        match c {
+            '\\' => o.push_str("\\x5C"),
+            '/' => o.push_str("\\x2F"),
+            '"' => o.push_str("\\x22"),
+            '\'' => o.push_str("\\x27"),
+            '\n' => o.push_str("\\x0A"),
+            c => o.push(c),
+        }
+    }
+    o
+}
+const ESCAPERS: [(&str, &str, tera::EscapeFn); 3] = [
+    ("marker", "EscMarker", escape_marker),
+    ("js", "EscJs", escape_js),
+    ("identity", "EscId", escape_identity),
+];
+/// a string literal written in expressions: none of the five HTML specials (so that an optimiser
+/// that reasons about the DEFAULT escaper would treat it as inert), but characters other
+/// escapers rewrite
+const EXPR_LIT_SRC: &str = "z\u{a7}/y\\\\w";
+const EXPR_LIT_VAL: &str = "z\u{a7}/y\\w";
+
+/// marker escaper: outside every ⟦…⟧ region and outside the literal tokens there must be no data
+/// character (poison specials / multi-byte, the expression-literal's § and backslash)
+fn oracle_marker(out: &str) -> Result<(), String> {
+    let rem = erase_literals(out);
+    let mut depth = 0usize;
+    for c in rem.chars() {
+        if c == MK_OPEN {
+            depth += 1;
+        } else if c == MK_CLOSE {
+            depth = depth.saturating_sub(1);
+        } else if depth == 0 && matches!(c, '<' | '>' | '"' | '\'' | '&' | '\u{65e5}' | '\u{672c}' | '\u{1F600}' | '\u{a7}' | '\\') {
+            return Err(format!("data character `{c}` written without a call of the configured escape function"));
+        }
+    }
+    Ok(())
+}
+/// JS escaper: after erasing the literal tokens there is no bare / " ' or newline, and every
+/// backslash starts one of the five \xNN sequences the escaper writes
+fn oracle_js(out: &str) -> Result<(), String> {
+    let rem = erase_literals(out);
+    let seqs = ["\\x5C", "\\x2F", "\\x22", "\\x27", "\\x0A"];
+    for (i, c) in rem.char_indices() {
+        match c {
+            '\\' => {
+                if !seqs.iter().any(|q| rem[i..].starts_with(q)) {
+                    return Err("backslash that does not start an escape sequence: data written without the configured escape function".into());
+                }
+            }
+            '/' | '"' | '\'' | '\n' => return Err(format!("`{c}` written without the configured escape function")),
+            _ => {}
+        }
+    }
+    Ok(())
+}
+
+const KNOWN_OPS: [&str; 56] = [
+    "LoadConst", "LoadName", "LoadAttr", "LoadAttrOpt", "BinarySubscript", "BinarySubscriptOpt", "Slice", "SliceOpt",
+    "WriteText", "WriteTop", "Set", "SetGlobal", "Include", "BuildMap", "BuildList", "BuildMapWithSpreads",
+    "BuildListWithSpreads", "CallFunction", "RenderInlineComponent", "RenderBodyComponent", "ApplyFilter", "RunTest",
+    "RenderBlock", "Jump", "PopJumpIfFalse", "JumpIfFalseOrPop", "JumpIfTrueOrPop", "Capture", "EndCapture",
+    "StartIterate", "StartIterateComprehension", "Iterate", "StoreLocal", "StoreDidNotIterate", "Break", "PopLoop",
+    "AppendToList", "Mul", "Div", "FloorDiv", "Mod", "Plus", "Minus", "Power", "LessThan", "GreaterThan",
+    "LessThanOrEqual", "GreaterThanOrEqual", "Equal", "NotEqual", "StrConcat", "In", "Not", "Negative", "LoadPath", "WritePath",
+];
+
 #[derive(Clone, Copy, PartialEq, Debug)]
 enum K {
     S,
@@ -245,6 +331,21 @@ impl<'a> Gen<'a> {
             return format!("{}{{{{ {} }}}}", self.lit(), e);
         }
         let d = depth - 1;
+        if self.rng.chance(1, 7) {
+            // a string literal of the template itself, printed directly and through every branch form
+            self.tag("direct-literal");
+            let l = self.lit();
+            let q = EXPR_LIT_SRC;
+            return match self.rng.below(9) {
+                0 | 1 | 2 => format!("{l}{{{{ \"{q}\" }}}}"),
+                3 => format!("{l}{{{{ \"{q}\" if t else \"{q}\" }}}}{{{{ \"{q}\" if e else \"{q}{q}\" }}}}"),
+                4 => format!("{l}{{{{ u or \"{q}\" }}}}{{{{ t and \"{q}\" }}}}"),
+                5 => format!("{l}{{{{ \"{q}\" ~ {var} }}}}{{{{ \"{q}\" ~ \"{q}\" }}}}"),
+                6 => { let v = format!("v{}", self.fresh()); format!("{l}{{% set {v} = \"{q}\" %}}{{{{ {v} }}}}{{{{ \"{q}\" }}}}") }
+                7 => format!("{l}{{{{ \"{q}\" | upper }}}}{{{{ u | default(value=\"{q}\") }}}}"),
+                _ => format!("{l}{{% set w %}}{{{{ \"{q}\" }}}}{{% endset %}}{{{{ w }}}}{{{{ [\"{q}\"] }}}}"),
+            };
+        }
         match self.rng.below(15) {
             0 | 1 => {
                 let e = self.expr(&var, k);
@@ -610,6 +711,54 @@ fn sweep_progs(ext: &'static str) -> Vec<Prog> {
     out
 }
 
+/// Short safe strings concatenated with short unsafe ones, every length around the inline-string
+/// boundaries of the value representation, every mint point, both operand orders.
+fn concat_progs(ext: &'static str) -> Vec<Prog> {
+    let mut out = Vec::new();
+    let mk = CompDef { name: "Mk".into(), params: vec![("n".into(), None)], rest: None, body: "{{ n }}".into(), a_kind: K::S, uses_body: false };
+    for len in [0usize, 1, 2, 5, 10, 14, 15, 16, 17, 20, 21, 22, 23, 24, 30, 40] {
+        let lit: String = "abcdefghij".chars().cycle().take(len).collect();
+        for mint in ["set-block", "component-result", "super", "slice-of-capture"] {
+            for order in ["s ~ q", "q ~ s", "s ~ q ~ s", "s ~ \"\" ~ q"] {
+                for q in ["p", "ps[1]", "pn.a.b"] {
+                    let e = order.replace('q', q);
+                    let tail = format!("[L2]{{{{ {e} }}}}{{% set z = {e} %}}{{{{ z }}}}[L3]{{{{ p }}}}");
+                    let (templates, comps, has_blocks): (Vec<(String, String)>, Vec<CompDef>, bool) = match mint {
+                        "set-block" => (vec![(format!("entry{ext}"), format!("{{% set s %}}{lit}{{% endset %}}{tail}"))], vec![], false),
+                        "slice-of-capture" => (vec![(format!("entry{ext}"), format!("{{% set s0 %}}xy{lit}{{% endset %}}{{% set s = s0[2:] %}}{tail}"))], vec![], false),
+                        "component-result" => (
+                            vec![(format!("comps{ext}"), mk.source()), (format!("entry{ext}"), format!("{{% set s = <Mk n=\"{lit}\" /> %}}{tail}"))],
+                            vec![mk.clone()],
+                            false,
+                        ),
+                        _ => (
+                            vec![
+                                (format!("cbase{ext}"), format!("{{% block b %}}{lit}{{% endblock %}}")),
+                                (format!("entry{ext}"), format!("{{% extends \"cbase{ext}\" %}}{{% block b %}}{{% set s = super() %}}{tail}{{% endblock %}}")),
+                            ],
+                            vec![],
+                            true,
+                        ),
+                    };
+                    out.push(Prog {
+                        label: format!("concat:{mint}/{len}/{order}/{q}"),
+                        templates,
+                        entry: format!("entry{ext}"),
+                        has_blocks,
+                        comps,
+                        ext,
+                        lit_special: false,
+                        uses_safe: false,
+                        cuts: mint == "slice-of-capture",
+                        tags: vec![],
+                    });
+                }
+            }
+        }
+    }
+    out
+}
+
 fn hand_progs(ext: &'static str) -> Vec<Prog> {
     let rec = CompDef {
         name: "Rec".into(),
@@ -627,6 +776,8 @@ fn hand_progs(ext: &'static str) -> Vec<Prog> {
         ("nested-body", "{% <Wrap a={p}> %}<L3 \"'>{{ p }}{% <Wrap> %}{{ pn.a.b }}{% </Wrap> %}{% </Wrap> %}<L9 \"'>{{ p }}".into(), vec![wrap.clone()]),
         ("single-expr-body", "{% <Wrap> %}{{ p }}{% </Wrap> %}|{% <Wrap a={p}> %}{{ pn.a.b }}{% </Wrap> %}<L9 \"'>{{ p }}".into(), vec![wrap.clone()]),
         ("forward-body", "{% <Fwd> %}{{ p }}x{% </Fwd> %}<L9 \"'>{{ p }}".into(), vec![wrap.clone(), CompDef { name: "Fwd".into(), params: vec![], rest: None, body: "{% <Wrap> %}{{ body }}{% </Wrap> %}".into(), a_kind: K::S, uses_body: true }]),
+        ("direct-literal", format!("{{{{ \"{q}\" }}}}|{{{{ \"{q}\" if t else \"x\" }}}}|{{{{ u or \"{q}\" }}}}|{{% set l = \"{q}\" %}}{{{{ l }}}}|{{{{ \"{q}\" ~ \"\" }}}}|{{% for i in ps %}}{{{{ \"{q}\" }}}}{{% endfor %}}<L9 \"'>{{{{ p }}}}", q = EXPR_LIT_SRC), vec![]),
+        ("direct-literal-in-capture", format!("{{% set c %}}{{{{ \"{q}\" }}}}{{% endset %}}{{{{ c }}}}|{{% <Wrap a={{\"{q}\"}}> %}}x{{{{ \"{q}\" }}}}{{% </Wrap> %}}{{% filter upper %}}{{{{ \"{q}\" }}}}{{% endfilter %}}<L9 \"'>{{{{ p }}}}", q = EXPR_LIT_SRC), vec![wrap.clone()]),
         ("filter-double", "{% filter escape_html %}{{ p }}{% endfilter %}<L9 \"'>{{ p }}".into(), vec![]),
         ("map-keys", "{% for k, v in pm %}{{ k }}{{ v }}{% endfor %}{{ pm }}<L9 \"'>{{ p }}".into(), vec![]),
         ("dump", "{% set q = p %}{% for i in ps %}{{ __tera_context }}{% endfor %}<L9 \"'>{{ p }}".into(), vec![]),
@@ -713,6 +864,12 @@ struct Setup {
     comps_name: String,
     in_subset: bool,
     comp_src_tpl: Vec<(String, String)>,
+    /// the same templates compiled with Chunk::optimize switched off (hook H2)
+    tera_noopt: Option<Tera>,
+    /// opcode names the model VM does not know, found in the chunks the engine will run
+    unknown_ops: Vec<String>,
+    /// Gallina `option (templates * components)` of the unoptimised twin
+    noopt_term: String,
 }
 
 fn setup(p: &Prog, suffix_mode: u8) -> Option<Setup> {
@@ -728,10 +885,37 @@ fn setup(p: &Prog, suffix_mode: u8) -> Option<Setup> {
     if suffix_mode == 2 {
         tera.autoescape_on(vec![".txt"]);
     }
+    let tera_noopt = {
+        tera::verif::set_optimize(false);
+        let mut t2 = Tera::default();
+        if suffix_mode == 1 {
+            t2.autoescape_on(vec![".txt"]);
+        }
+        let ok = t2.add_raw_templates(p.templates.clone()).is_ok();
+        if suffix_mode == 2 {
+            t2.autoescape_on(vec![".txt"]);
+        }
+        tera::verif::set_optimize(true);
+        if ok { Some(t2) } else { None }
+    };
+    let mut unknown_ops: Vec<String> = Vec::new();
+    let mut note_ops = |l: &Listing| {
+        for (i, _) in l.iter() {
+            if !KNOWN_OPS.contains(&i.op) && !unknown_ops.iter().any(|x| x == i.op) {
+                unknown_ops.push(i.op.to_string());
+            }
+        }
+    };
     let mut listings = Vec::new();
     let mut in_subset = true;
     for (n, _) in &p.templates {
         let tl = template_listing(&tera, n)?;
+        note_ops(&tl.chunk);
+        for (_, cs) in &tl.lineage {
+            for c in cs {
+                note_ops(c);
+            }
+        }
         if !subset_ok(&tl.chunk) || tl.lineage.iter().any(|(_, cs)| cs.iter().any(|c| !subset_ok(c))) {
             in_subset = false;
         }
@@ -748,6 +932,7 @@ fn setup(p: &Prog, suffix_mode: u8) -> Option<Setup> {
     let mut comp_src_tpl = vec![];
     let mut gcomps = vec![];
     for (name, tplname, listing) in component_listings(&tera) {
+        note_ops(&listing);
         if !subset_ok(&listing) {
             in_subset = false;
         }
@@ -762,13 +947,55 @@ fn setup(p: &Prog, suffix_mode: u8) -> Option<Setup> {
     };
     let tpls_name = format!("tp_{:x}", fnv_pub(&tpls_term));
     let comps_name = format!("cp_{:x}", fnv_pub(&comps_term));
+    // the unoptimised twin as Gallina terms
+    let mut extra_defs: Vec<(String, String)> = vec![];
+    let mut noopt_term = "None".to_string();
+    if let Some(t2) = &tera_noopt {
+        let mut l2 = Vec::new();
+        let mut okk = true;
+        for (n, _) in &p.templates {
+            match template_listing(t2, n) {
+                Some(tl) => l2.push(tl),
+                None => okk = false,
+            }
+        }
+        if okk {
+            let g2: Vec<String> = l2
+                .iter()
+                .map(|tl| {
+                    let root = l2.iter().find(|x| x.name == tl.root).map(|x| x.chunk.clone()).unwrap_or_else(|| tl.chunk.clone());
+                    format!("({}, {})", gal_str(&tl.name), gal_template(tl, &root))
+                })
+                .collect();
+            let t2_term = format!("[{}]", g2.join("; "));
+            let mut gc2 = vec![];
+            for (name, _, listing) in component_listings(t2) {
+                if let Some(def) = p.comps.iter().find(|c| c.name == name) {
+                    gc2.push(format!("({}, ({}, {}))", gal_str(&name), def.gal(), gal_code(&listing)));
+                }
+            }
+            let c2_term = if gc2.is_empty() { "(@nil (str * (comp_def * list instr)))".to_string() } else { format!("[{}]", gc2.join("; ")) };
+            let n1 = format!("tn_{:x}", fnv_pub(&t2_term));
+            let n2 = format!("cn_{:x}", fnv_pub(&c2_term));
+            noopt_term = format!("(Some ({n1}, {n2}))");
+            extra_defs.push((n1, t2_term));
+            extra_defs.push((n2, c2_term));
+        }
+    }
     Some(Setup {
         tera,
-        defs: vec![(tpls_name.clone(), tpls_term), (comps_name.clone(), comps_term)],
+        defs: {
+            let mut d = vec![(tpls_name.clone(), tpls_term), (comps_name.clone(), comps_term)];
+            d.extend(extra_defs);
+            d
+        },
         tpls_name,
         comps_name,
-        in_subset,
+        in_subset: in_subset && unknown_ops.is_empty(),
         comp_src_tpl,
+        tera_noopt,
+        unknown_ops,
+        noopt_term,
     })
 }
 
@@ -784,6 +1011,8 @@ fn main() {
     assert!(oracle_escaped(POISON, false).is_err() && oracle_escaped("a&b", false).is_err() && oracle_escaped("a&b", true).is_ok());
     assert!(oracle_escaped(&format!("<L12 \"'>{}<L3 \"'>", esc(POISON)), false).is_ok());
     assert!(oracle_escaped("<L12 \"'> <M1 \"'>", false).is_err());
+    assert!(oracle_marker(&format!("<L1 \"'>{MK_OPEN}{POISON}{MK_CLOSE}12true")).is_ok() && oracle_marker(EXPR_LIT_VAL).is_err() && oracle_marker(POISON3).is_err());
+    assert!(oracle_js(&esc_js(POISON)).is_ok() && oracle_js(&esc_js(EXPR_LIT_VAL)).is_ok() && oracle_js(EXPR_LIT_VAL).is_err() && oracle_js(&esc_js(&esc_js(POISON))).is_ok());
     let mut rng = Rng::new(args.seed);
     let mut meta = Meta::default();
     let hdr = "From TeraV Require Import Model.Value Model.Instr Model.VM Model.Taint Model.WorldC01 Corr.CorrC01.";
@@ -809,6 +1038,14 @@ fn main() {
         // `safe` only in a separate stream (the oracle changes)
         let allow_safe = k % 7 == 6;
         progs.push((gen_prog(&mut rng, k, ext, allow_safe), mode));
+    }
+    // concatenation of short safe and unsafe strings: all of it in the thorough tier, a seeded third in the quick tier
+    let mut concat_total = 0usize;
+    for (i, p) in concat_progs(".html").into_iter().enumerate() {
+        concat_total += 1;
+        if thorough || i % 3 == (args.seed as usize % 3) {
+            progs.push((p, 0));
+        }
     }
     let mut sweep_total = 0usize;
     let mut sweep_ok = 0usize;
@@ -839,14 +1076,19 @@ fn main() {
     let mut oracle_only = 0usize;
     let mut oracle_only_nontrivial = 0usize;
     let mut skipped_register = 0usize;
-    let mut model_budget: usize = if thorough { 3000 } else { 320 };
+    let mut model_budget: usize = if thorough { 3600 } else { 420 };
     let mut distribution: std::collections::BTreeMap<String, usize> = Default::default();
 
     for (pi, (p, smode)) in progs.iter().enumerate() {
-        let Some(su) = setup(p, *smode) else {
+        let Some(mut su) = setup(p, *smode) else {
             skipped_register += 1;
             continue;
         };
+        meta.oracle_checks += 1;
+        if !su.unknown_ops.is_empty() {
+            meta.oracle_fail(&format!("the engine runs an instruction the model VM cannot account for: {:?}", su.unknown_ops), None,
+                json!({"label": p.label, "templates": p.templates, "entry": p.entry, "mode": "render", "suffix_mode": smode, "context": "poison"}));
+        }
         if p.label.starts_with("sweep:") {
             sweep_ok += 1;
         }
@@ -900,7 +1142,7 @@ fn main() {
                 }
                 let mut nontrivial = false;
                 if let Outcome::Ok(out) = &r {
-                    nontrivial = out.chars().count() > 20 && !p.tags.is_empty() || p.label.starts_with("sweep") || p.label.starts_with("hand");
+                    nontrivial = out.chars().count() > 20 && !p.tags.is_empty() || p.label.starts_with("sweep") || p.label.starts_with("hand") || p.label.starts_with("concat");
                     if ae_on && !p.uses_safe && !user_safe {
                         if let Err(what) = oracle_escaped(out, p.cuts) {
                             meta.oracle_fail(&format!("autoescape on, no safe: {what}"), None,
@@ -920,10 +1162,10 @@ fn main() {
                 }
                 // ---- model side
                 let strict = ae_on && !p.uses_safe && !p.lit_special && !user_safe;
-                if su.in_subset && model_budget > 0 && (rng.chance(1, if thorough { 12 } else { 5 }) || (strict && rng.chance(1, 2)) || p.label.starts_with("hand:") || p.label.starts_with("sweep:") && rng.chance(1, 3)) {
+                if su.in_subset && model_budget > 0 && (rng.chance(1, if thorough { 12 } else { 5 }) || (strict && rng.chance(1, 2)) || p.label.starts_with("hand:") || (p.label.starts_with("sweep:") || p.label.starts_with("concat:")) && rng.chance(1, 6)) {
                     model_budget -= 1;
                     let g = format!(
-                        "{{| k_templates := {}; k_components := {}; k_entry := {}; k_mode := MRender {}; k_ctx := {}; k_safe := {}; k_strict := {}; k_impl := {} |}}",
+                        "{{| k_templates := {}; k_components := {}; k_entry := {}; k_mode := MRender {}; k_ctx := {}; k_noopt := None; k_esc := EscDefault; k_safe := {}; k_strict := {}; k_impl := {} |}}",
                         su.tpls_name, su.comps_name, gal_str(&p.entry), gal_opt(&blk, |b| gal_str(b)), gal_ctx(c),
                         gal_bool(p.uses_safe), gal_bool(strict), r.gal(|s| gal_str(s))
                     );
@@ -936,6 +1178,73 @@ fn main() {
                     oracle_only += 1;
                     if nontrivial {
                         oracle_only_nontrivial += 1;
+                    }
+                }
+                            // ---- the same render under custom escape functions (Tera::set_escape_fn)
+                let wide = p.tags.contains(&"wide-filters");
+                for (ename, egal, efn) in ESCAPERS {
+                    su.tera.set_escape_fn(efn);
+                    let r2 = match mode {
+                        "render" => guarded(|| su.tera.render(&p.entry, &ctx)),
+                        "render_block" => guarded(|| su.tera.render_block(&p.entry, blk.as_ref().unwrap(), &ctx)),
+                        _ => guarded(|| su.tera.render_str(entry_src, &ctx, ae_on)),
+                    };
+                    su.tera.reset_escape_fn();
+                    renders += 1;
+                    meta.oracle_checks += 1;
+                    let input2 = json!({"label": p.label, "templates": p.templates, "entry": p.entry, "mode": mode, "block": blk,
+                        "suffix_mode": smode, "context": cname, "autoescape": ae_on, "escaper": ename});
+                    if let Outcome::Panic(msg) = &r2 {
+                        meta.oracle_fail(&format!("panic: {msg}"), None, input2.clone());
+                    }
+                    if let Outcome::Ok(out) = &r2 {
+                        if ae_on && !p.uses_safe && !user_safe && !p.cuts && !wide {
+                            let verdict = match ename {
+                                "marker" => oracle_marker(out),
+                                "js" => oracle_js(out),
+                                _ => if mode != "render_block" && !out.contains(&poison) { Err("identity escaper: the poison does not appear verbatim".to_string()) } else { Ok(()) },
+                            };
+                            if let Err(what) = verdict {
+                                meta.oracle_fail(&format!("autoescape on, escaper `{ename}`: {what}"), None, json!({"input": input2, "output": out}));
+                            }
+                        }
+                        if !ae_on && mode != "render_block" && !out.contains(&poison) {
+                            meta.oracle_fail(&format!("autoescape off, escaper `{ename}`: the poison does not appear verbatim"), None,
+                                json!({"input": input2, "output": out}));
+                        }
+                    }
+                    // the optimiser must not change what is written, whatever the escaper
+                    if mode == "render" {
+                        if let Some(t2) = su.tera_noopt.as_mut() {
+                            t2.set_escape_fn(efn);
+                            let r3 = guarded(|| t2.render(&p.entry, &ctx));
+                            t2.reset_escape_fn();
+                            renders += 1;
+                            meta.oracle_checks += 1;
+                            let same = match (&r2, &r3) {
+                                (Outcome::Ok(a), Outcome::Ok(b)) => a == b,
+                                (Outcome::Err(a, _), Outcome::Err(b, _)) => a == b,
+                                _ => false,
+                            };
+                            if !same {
+                                meta.oracle_fail(&format!("escaper `{ename}`: the optimised chunks write something else than the unoptimised ones"), None,
+                                    json!({"input": input2, "optimised": r2.json(|s| json!(s)), "unoptimised": r3.json(|s| json!(s))}));
+                            }
+                        }
+                    }
+                    // model side: the escape function is a parameter of the world
+                    if su.in_subset && model_budget > 0 && (p.label.starts_with("hand:") && *cname == "poison" || rng.chance(1, if thorough { 30 } else { 14 })) {
+                        model_budget -= 1;
+                        let g = format!(
+                            "{{| k_templates := {}; k_components := {}; k_entry := {}; k_mode := MRender {}; k_ctx := {}; k_noopt := {}; k_esc := {}; k_safe := {}; k_strict := false; k_impl := {} |}}",
+                            su.tpls_name, su.comps_name, gal_str(&p.entry), gal_opt(&blk, |b| gal_str(b)), gal_ctx(c), su.noopt_term, egal,
+                            gal_bool(p.uses_safe), r2.gal(|s| gal_str(s))
+                        );
+                        let desc = json!({"input": input2, "impl": r2.json(|s| json!(s))});
+                        let tag = match &r2 { Outcome::Ok(_) => "impl:ok", Outcome::Err(..) => "impl:err", Outcome::Panic(_) => "impl:panic" };
+                        sink.push_with_defs(&su.defs, g, desc, nontrivial, None, &[tag, mode, if ae_on { "ae:on" } else { "ae:off" }, ename]);
+                    } else {
+                        oracle_only += 1;
                     }
                 }
             }
@@ -969,7 +1278,7 @@ fn main() {
                         if let (true, Some(src_tpl), true) = (su.in_subset, src_tpl, model_budget > 0 && rng.chance(1, if thorough { 12 } else { 5 })) {
                             model_budget -= 1;
                             let g = format!(
-                                "{{| k_templates := {}; k_components := {}; k_entry := {}; k_mode := MComponent {} {} {}; k_ctx := {}; k_safe := {}; k_strict := false; k_impl := {} |}}",
+                                "{{| k_templates := {}; k_components := {}; k_entry := {}; k_mode := MComponent {} {} {}; k_ctx := {}; k_noopt := None; k_esc := EscDefault; k_safe := {}; k_strict := false; k_impl := {} |}}",
                                 su.tpls_name, su.comps_name, gal_str(&src_tpl), gal_str(&cd.name), gal_bool(flag),
                                 gal_opt(&body.map(|s| s.to_string()), |b| gal_str(b)), gal_ctx(&cc), gal_bool(p.uses_safe), r.gal(|s| gal_str(s))
                             );
@@ -1011,6 +1320,7 @@ fn main() {
     meta.extra.insert("programs".into(), json!(progs.len()));
     meta.extra.insert("programs_rejected_at_registration".into(), json!(skipped_register));
     meta.extra.insert("sweep_space".into(), json!(sweep_total));
+    meta.extra.insert("concat_length_space".into(), json!(concat_total));
     meta.extra.insert("sweep_programs_run".into(), json!(sweep_ok));
     meta.extra.insert("sweep_exhaustive".into(), json!(thorough));
     meta.extra.insert("construct_distribution".into(), json!(distribution));
@@ -1046,6 +1356,12 @@ fn replay(path: &std::path::Path) {
         _ => context_for(POISON, false),
     };
     let ctx = to_context(&c);
+    if let Some(e) = input.get("escaper").and_then(|e| e.as_str()) {
+        if let Some((_, _, f)) = ESCAPERS.iter().find(|x| x.0 == e) {
+            tera.set_escape_fn(*f);
+            println!("--- escape function: {e}");
+        }
+    }
     let mode = input.get("mode").and_then(|m| m.as_str()).unwrap_or("render");
     let out = match mode {
         "render_component" => {
